@@ -127,3 +127,32 @@ def shrink(case, ctx):
 
 
 SHRINK = "custom"
+
+
+from . import sigs  # noqa: E402
+
+
+def _cfg_script(case, cf):
+    s = dict(case["script"])
+    s["options"] = cf["options"]
+    s["logic"] = cf["logic"]
+    s["lk"] = cf["logic"]
+    return s
+
+
+def _sig_ghost(case, res):
+    d = res.detail or {}
+    if d.get("reference") != "unsat":
+        return False
+    return sigs.ghost_combination_wrong_sat(_cfg_script(case, d["config_sat"]))
+
+
+def _sig_boolarg(case, res):
+    d = res.detail or {}
+    if d.get("reference") != "unsat":
+        return False
+    return sigs.boolarg_combination_wrong_sat(_cfg_script(case, d["config_sat"]))
+
+
+SIGNATURES = {"ghost-vars-theory-combination-wrong-sat": _sig_ghost,
+              "uf-bool-argument-theory-combination-wrong-sat": _sig_boolarg}
